@@ -112,6 +112,64 @@ class HistGen(object):
         off = self.r.choice([-100, -10, -1, 0, 1, 10, 100]) * 1000000
         return us_to_dt(self.now + off)
 
+    # what an array under the TTL field holds besides dates
+    TTL_NON_DATES = [5, 0, 1.5, 'x', '', None, True]
+
+    def ttl_items(self, depth):
+        """the items of an array under the TTL field: dates around the clock, non-dates, ARRAYS
+        (of the same make, down to `depth` further levels; empty ones too) and sub-documents
+        holding dates.  Only the dates among the array's OWN items are dates of the field: one
+        that sits inside an item (an array or a sub-document, at any depth) is not."""
+        r = self.r
+        items = []
+        for _ in range(r.choice([0, 1, 1, 2, 2, 3])):
+            x = r.random()
+            if x < 0.4:
+                items.append(self.date_near_now())
+            elif x < 0.55:
+                items.append(r.choice(self.TTL_NON_DATES))
+            elif x < 0.85 and depth > 0:
+                items.append(self.ttl_items(depth - 1))
+            elif x < 0.85:
+                items.append([])
+            else:
+                items.append({r.choice(['t', 'at']): r.choice(
+                    [self.date_near_now(), [self.date_near_now()]])})
+        return items
+
+    def ttl_value(self):
+        """every shape of the value under a TTL field: a date; a flat array of dates; a flat
+        array mixing dates and non-dates; arrays whose items are arrays again (1-3 levels,
+        holding dates, strings, numbers, sub-documents, nothing) next to dates of their own or
+        alone; arrays of sub-documents holding dates; the empty array; non-date scalars and a
+        sub-document holding a date"""
+        r = self.r
+        y = r.random()
+        if y < 0.5:
+            return self.date_near_now()
+        if y < 0.62:
+            return [self.date_near_now() for _ in range(r.choice([1, 2, 2, 3]))]
+        if y < 0.70:
+            v = [self.date_near_now(), r.choice(self.TTL_NON_DATES)]
+            r.shuffle(v)
+            return v
+        if y < 0.90:
+            v = self.ttl_items(r.choice([1, 1, 2, 3]))
+            if r.random() < 0.6:
+                # at least one item that is an array holding a date (at the bottom of 1-3 levels)
+                inner = [self.date_near_now()]
+                if r.random() < 0.4:
+                    inner.insert(r.choice([0, 1]), r.choice(self.TTL_NON_DATES))
+                for _ in range(r.choice([0, 0, 1, 2])):
+                    inner = [inner] if r.random() < 0.6 else ['x', inner]
+                v.insert(r.randrange(len(v) + 1), inner)
+            return v
+        if y < 0.94:
+            return [{r.choice(['t', 'at']): self.date_near_now()}
+                    for _ in range(r.choice([1, 2]))]
+        return copy.deepcopy(r.choice([5, 'x', None, [], [[]], [[], []], {'t': None}])) \
+            if r.random() < 0.8 else {r.choice(['t', 'at']): self.date_near_now()}
+
     def new_doc(self):
         d = self.g.doc(2, maxf=3)
         d.pop('_id', None)
@@ -119,13 +177,10 @@ class HistGen(object):
         if x < 0.7:
             d = dict([('_id', copy.deepcopy(self.r.choice(self.ids)))] + list(d.items()))
         if self.ttl and self.r.random() < 0.6:
-            v = self.date_near_now()
-            y = self.r.random()
-            if y < 0.2:
-                v = [self.date_near_now(), self.date_near_now()]
-            elif y < 0.3:
-                v = self.r.choice([5, 'x', None, [], [1, self.date_near_now()]])
-            d['t'] = v
+            d['t'] = self.ttl_value()
+        if self.ttl and self.r.random() < 0.06:
+            # the TTL index of a history is sometimes over a / b
+            d[self.r.choice(['a', 'b'])] = self.ttl_value()
         # keep colliding values in the indexed fields
         for f in ('a', 'b'):
             if f in d and self.r.random() < 0.5:
@@ -175,7 +230,16 @@ class HistGen(object):
             f = self.filt()
             u = self.ug.update(self.some_doc())
             if self.ttl and r.random() < 0.3:
-                u = {'$set': {'t': self.date_near_now()}}
+                # the TTL field changes shape under updates as well: a new value of any shape,
+                # or one more item (a date, a non-date, an array) for the array it holds
+                y = r.random()
+                if y < 0.6:
+                    u = {'$set': {'t': self.date_near_now()}}
+                elif y < 0.85:
+                    u = {'$set': {'t': self.ttl_value()}}
+                else:
+                    item = (self.ttl_items(2) + [self.date_near_now()])[0]
+                    u = {'$push': {'t': item}}
             return [k, f, u, r.random() < 0.3]
         if k == 'replace_one':
             return [k, self.filt(), self.ug.replacement(self.some_doc()), r.random() < 0.3]
